@@ -31,6 +31,9 @@ Step(q) ==
     [] q.k = "ptscen" -> [scen |-> PtScen]
     [] q.k = "histplan" -> [plans |-> [m \in SpreadingModels |-> {[a |-> ab[1], b |-> ab[2], args |-> ArgsG(m, ab[1]), steps |-> HistPlan(ab[1], ab[2])] : ab \in HistPairs(m)}]]
     [] q.k = "hist" -> HistStep(q)
+    [] q.k = "elemplan" -> [patterns |-> ElemPatterns,
+                            args |-> [m \in {mm \in SpreadingModels : ~QuadBased(mm)} |-> {[par |-> a, xs |-> ElemArgs(m, a)] : a \in ParamsG(m)}]]
+    [] q.k = "elem" -> ElemStep(q)
     [] q.k = "geo" -> GeoStep(q)
     [] q.k = "pt" -> PtStep(q)
 
